@@ -1316,6 +1316,44 @@ fn directed() -> Vec<(&'static str, String)> {
             eng((t % 3) as u8), wn, bn, wn, bn, t
         )));
     }
+    // a candidate chosen over Tab marks (break / glue) inside a dictionary phrase: 測試 (tests/data) and the user phrases
+    // 測試測 / 測試測試, marks at every non-empty set of inner gaps, chewing / fuzzy engine, forward choice from Home and
+    // rearward choice from End, the first candidate chosen by chewing_cand_choose_by_index and by the digit key, then
+    // the next conversion (every getter runs after every call), more syllables, Tab, the list again, Enter
+    let syl = ["d 104 ; d 107 ; d 52", "d 103 ; d 52"];
+    let (w3, b3) = (hx("測試測"), hx("ㄘㄜˋ ㄕˋ ㄘㄜˋ"));
+    let (w4, b4) = (hx("測試測試"), hx("ㄘㄜˋ ㄕˋ ㄘㄜˋ ㄕˋ"));
+    for len in 2..=4usize {
+        for mask in 1u32..(1 << (len - 1)) {
+            for (e, rear) in [(1u8, 0u8), (2, 0), (1, 1), (2, 1)] {
+                for by_key in [false, true] {
+                    let mut c: Vec<String> = vec![eng(e), format!("ci chewing.phrase_choice_rearward {}", rear)];
+                    if len > 2 {
+                        c.push(format!("ua {} {}", w3, b3));
+                        c.push(format!("ua {} {}", w4, b4));
+                    }
+                    for i in 0..len {
+                        c.push(syl[i % 2].into());
+                    }
+                    let mut cur = len;
+                    for g in (1..len).rev() {
+                        if (mask >> (g - 1)) & 1 == 1 {
+                            while cur > g {
+                                c.push("k left".into());
+                                cur -= 1;
+                            }
+                            c.push("k tab".into());
+                        }
+                    }
+                    c.push(if rear == 1 { "k end" } else { "k home" }.into());
+                    c.push("k down".into());
+                    c.push(if by_key { "d 49" } else { "cx 0" }.into());
+                    c.push("k end ; d 104 ; d 107 ; d 52 ; k tab ; k home ; k down ; k down ; cx 0 ; k enter".into());
+                    v.push(("choice-over-tab-marks", format!("testdata | {}", c.join(" ; "))));
+                }
+            }
+        }
+    }
     v.extend(vec![
         ("F01-fixed", "builtin | set shape 1 ; d 1".into()),
         ("F01-fixed", "builtin | set chieng 0 ; set shape 1 ; d 1 ; d 127 ; d 255 ; n 1 ; k tab".into()),
